@@ -17,7 +17,6 @@ PROPS = {}
 # properties not claimed (yet or ever), with the one-line reason that goes into MANIFEST.not_applicable
 _WIP = "check not built yet in this round (planned, see DESIGN.md section 5)"
 NOT_APPLICABLE = {
-    "C12": _WIP,
     "C03": "accept/reject and AST construction live in a proc-macro-generated PEG parser over `str`; Verus cannot reason about str/macro output and Kani cannot carry a symbolic text past the mandatory header, so no contract within reach states 'accepts exactly this language'",
     "C16": "composes core::fmt/pad string formatting with the pest parser over all ASTs; both halves are str-level and outside what Verus accepts or Kani can bound meaningfully",
     "C17": "behaviour is spread over crossterm event polling, tui rendering, a nom grammar over str and a filesystem completer: terminal/filesystem effects and string combinators neither verifier can execute or specify",
@@ -321,5 +320,21 @@ PROPS["C06"] = {
     "bounded": ["c06_org_forward / c06_byte: distance / n <= 5", "c06_load_small_images: <= 6 bytes over two lines; c06_load_full_ram: one concrete 240-byte image"],
     "samples": [{"obligation": "C06.P.push.returns-normally", "text": "accepted(inst) & next_addr <= 251 ==> push_instruction(inst) does not panic", "domain": "symbolic registers/constants/address counter per variant"}],
     "trusted": ["kani::stub(std::hash::RandomState::new -> fixed keys)"],
+    "assumptions": [],
+}
+
+PROPS["C12"] = {
+    "inject": ST_ALL + [ST_MACHINE, ("emulator-2a-lib/src/machine/raw/mod.rs", "c12_raw.rs", "verif_c12r"),
+                        ("emulator-2a-lib/src/machine/mod.rs", "c12_machine.rs", "verif_c12m"),
+                        ("emulator-2a-lib/src/runner/mod.rs", "c12_runner.rs", "verif_c12")],
+    "groups": [{"match": "c12_run_schedule", "flags": ["-Z", "stubbing"]}, {"match": ".*", "flags": []}],
+    "functions": ["RunExpectations::verify", "RunnerConfig::run (scheduling loop)", "Machine::new_with_program / trigger_key_interrupt / cpu_reset / trigger_key_clock (as called from run)"],
+    "timeout": 900,
+    "technique": "function contract on RunExpectations::verify (complete, symbolic expectations and machine) + caller-against-callee-contract check of RunnerConfig::run's schedule loop with abstract edge/interrupt/reset (kani::stub, ghost log), Kani/CBMC",
+    "level_text": "Proof for verify: Ok exactly when every stated expectation equals the machine's value, for all 2^3 expectation subsets x values x machine states; the error names the first mismatch with both values. The schedule loop of run is checked against the reference schedule for every behaviour of the callees, BOUNDED to 5 cycles and two interrupt/reset entries each.",
+    "level_note": "Trusted: Kani/CBMC, rustc; stubs for AsmParser::parse / Translator::compile (C03/C02's business), Instant::now/elapsed, and the three machine operations (represented by their contracts). NOT COVERED (outside either verifier's reach): structopt argument parsing incl. the three radices (str parsing), the printed report, the process exit status in main, and that apply_configuration forwards every configured input (setter frames are C05/C14).",
+    "bounded": ["c12_run_schedule: max_cycles <= 5, interrupts/resets lists of exactly two entries in 0..=6"],
+    "samples": [{"obligation": "C12.V.verify.ok-exactly-when-all-expectations-hold", "text": "verify(result).is_ok() <=> (state none or equal) & (FE none or equal) & (FF none or equal)", "domain": "symbolic expectations x fully symbolic machine"}],
+    "trusted": ["kani::stub for AsmParser::parse, Translator::compile, Instant::now/elapsed, RawMachine::trigger_clock_edge / trigger_key_edge_interrupt / cpu_reset in c12_run_schedule"],
     "assumptions": [],
 }
